@@ -117,6 +117,9 @@ pub enum Step {
 
 #[derive(Serialize, Deserialize, Clone, Debug, PartialEq)]
 pub struct Scenario {
+    /// enumeration checks: restrict the enumeration to one item (set when a violation is narrowed)
+    #[serde(default)]
+    pub focus: Option<String>,
     pub label: String,
     pub projects: Vec<Project>,
     pub files: Vec<FileSpec>,
